@@ -21,7 +21,14 @@ Expect(what, spec, impl) ==
 
 IsEvent(e) == l <= Len(Rec) /\ Ev.e = e /\ l' = l + 1
 NoPanic == IF ~Has(Ev, "panic") THEN TRUE ELSE PrintT(<<"MISMATCH", l, "panic", Ev.panic>>) /\ FALSE
-ObsOk(k, s) == Has(Ev, "obs") /\ Has(Ev.obs, "s") => Expect("state image", AlgImage(k, s), Ev.obs.s)
+(* The serde image of a plain type is an OBSERVATION channel, not part of any property: it is compared with the      *)
+(* specification's state only when it has the specification's shape (as many words of as many limbs).  A type whose  *)
+(* representation was changed (another number of fields, a ring buffer with a head index, ...) is then judged by its  *)
+(* outputs alone; a note is printed.                                                                                 *)
+SameShape(a, b) == /\ Len(a) = Len(b) /\ \A i \in 1..Len(a) : Len(a[i]) = Len(b[i])
+ObsOk(k, s) == Has(Ev, "obs") /\ Has(Ev.obs, "s") =>
+                 IF SameShape(AlgImage(k, s), Ev.obs.s) THEN Expect("state image", AlgImage(k, s), Ev.obs.s)
+                 ELSE PrintT(<<"IMAGE-NOTE", l, "the state image has another shape than the specification's state; not compared">>)
 
 TrReset == IsEvent("reset") /\ gens' = <<>> /\ srcs' = <<>>
 
@@ -35,6 +42,29 @@ TrFromSeed ==
        /\ Expect("ok", TRUE, Ev.ok)
        /\ ObsOk(Ev.kind, s)
        /\ gens' = (Ev.g :> [k |-> Ev.kind, s |-> s]) @@ gens
+  /\ UNCHANGED srcs
+
+(* the bare block cores (BlockRngCore::generate called directly): the same algorithm state as the wrapper type; one   *)
+(* generate call returns the next whole block of the word stream                                                     *)
+CoreKinds == {"Hc128Core", "IsaacCore", "Isaac64Core"}
+CoreOf(k) == CASE k = "Hc128Core" -> "Hc128Rng" [] k = "IsaacCore" -> "IsaacRng" [] k = "Isaac64Core" -> "Isaac64Rng" [] OTHER -> k
+BlockWords(k) == IF k = "Hc128Rng" THEN 16 ELSE 256
+TrFromSeedCore ==
+  /\ IsEvent("from_seed") /\ NoPanic
+  /\ Ev.kind \in CoreKinds
+  /\ Len(Ev.seed) = AlgSeedLen(CoreOf(Ev.kind))
+  /\ LET k == CoreOf(Ev.kind)
+         s == ResolveD(k, FromSeedD(SeedClass(k), Ev.seed)) IN
+       /\ Expect("ok", TRUE, Ev.ok)
+       /\ gens' = (Ev.g :> [k |-> k, s |-> s]) @@ gens
+  /\ UNCHANGED srcs
+TrGenerate ==
+  /\ IsEvent("generate") /\ NoPanic
+  /\ Ev.g \in DOMAIN gens /\ gens[Ev.g].k \in {"Hc128Rng", "IsaacRng", "Isaac64Rng"}
+  /\ LET G == gens[Ev.g]
+         r == AlgTake(G.k, G.s, BlockWords(G.k))
+     IN /\ Expect("block", r[2], Ev.ret)
+        /\ gens' = [gens EXCEPT ![Ev.g].s = r[1]]
   /\ UNCHANGED srcs
 
 TrSeedFromU64 ==
@@ -148,7 +178,7 @@ TrEq ==
 TrDrop == IsEvent("drop") /\ gens' = [g \in (DOMAIN gens) \ {Ev.g} |-> gens[g]] /\ UNCHANGED srcs
 
 Init == l = 1 /\ gens = <<>> /\ srcs = <<>>
-Next == \/ TrReset \/ TrFromSeed \/ TrSeedFromU64 \/ TrSrc \/ TrFromRng("from_rng") \/ TrFromRng("try_from_rng") \/ TrNext("next_u32") \/ TrNext("next_u64") \/ TrSmNext32
+Next == \/ TrReset \/ TrFromSeed \/ TrFromSeedCore \/ TrGenerate \/ TrSeedFromU64 \/ TrSrc \/ TrFromRng("from_rng") \/ TrFromRng("try_from_rng") \/ TrNext("next_u32") \/ TrNext("next_u64") \/ TrSmNext32
         \/ TrJump("jump") \/ TrJump("long_jump") \/ TrEq \/ TrDrop
         \/ TrStatePath("next_u32") \/ TrStatePath("next_u64") \/ TrStatePath("fill_bytes")
 Spec == Init /\ [][Next]_vars
